@@ -45,6 +45,38 @@ static void round_fn(ds_worker_t* w) {
   }
 }
 
+// sequential facts, including a session whose counters cross 2^32 (fast-forwarded consistently: as if that many items
+// had been pushed and handed out in this session): pushes during an open session are QUEUED, never START_WORKING
+static void wq_sequential_prefix(void) {
+  work_queue_t q;
+  work_queue_init(&q);
+  work_queue_item_t* it = (work_queue_item_t*)calloc(1, sizeof(*it));
+  work_queue_item_t* out = NULL;
+  if (work_queue_push(&q, it) != WORK_QUEUE_START_WORKING) vp_violation("C17", "wq:seq-first-push", "first push into an idle queue was not told to start working");
+  if (work_queue_get_work(&q, &out) != WORK_QUEUE_MORE_WORK || !out) vp_violation("C17", "wq:seq-get", "worker did not get the item it pushed");
+  const int64_t D = 0x100000000LL - 60;
+  q.in_count += D;
+  q.out_count += D;
+  int i;
+  for (i = 0; i < 200; ++i) {
+    work_queue_item_t* n = out ? out : (work_queue_item_t*)calloc(1, sizeof(*n));
+    out = NULL;
+    n->data = (void*)(uintptr_t)(i + 1);
+    if (work_queue_push(&q, n) != WORK_QUEUE_QUEUED) {
+      vp_violation("C17", "wq:two-workers", "push #%lld of an open session was told START_WORKING while the worker has not been told EMPTY", (long long)(D + 2 + i));
+      break;
+    }
+    if (work_queue_get_work(&q, &out) != WORK_QUEUE_MORE_WORK || !out || out->data != (void*)(uintptr_t)(i + 1)) {
+      vp_violation("C17", "wq:seq-get", "worker did not get item %d back in an open session", i);
+      break;
+    }
+  }
+  work_queue_item_t* none = NULL;
+  if (work_queue_get_work(&q, &none) != WORK_QUEUE_EMPTY) vp_violation("C17", "wq:seq-empty", "drained queue did not report EMPTY");
+  vp_count("wq_sequential_session_crossing_2pow32", 1);
+  work_queue_destroy(&q);
+}
+
 void ds_sub_wq(void) {
   const long rounds = vp_param("rounds", 100);
   const long ops = vp_param("ops", 4000);
@@ -55,6 +87,7 @@ void ds_sub_wq(void) {
   c_empty = vp_counter("wq_empty");
   c_rounds = vp_counter("wq_rounds");
   uint64_t rng = vp_mix(vp_cfg.seed, 1717);
+  wq_sequential_prefix();
   for (cur_round = 0; cur_round < rounds; ++cur_round) {
     const int T = 1 + (int)(vp_rand(&rng) % (unsigned)ds_nworkers);
     quota = ops / T;
